@@ -53,3 +53,108 @@ func TestSmoke(t *testing.T) {
 	}
 	t.Logf("steps=%d", net.Steps)
 }
+
+// The stale-polka script must complete (reach its round 2) for most placements, and on a correct
+// tree it must leave every honest node agreeing.
+func TestStalePolkaScript(t *testing.T) {
+	done, total, forks := 0, 0, 0
+	for _, cfg := range []struct {
+		n   int
+		byz []int
+	}{{4, []int{0}}, {4, []int{1}}, {4, []int{2}}, {4, []int{3}}, {7, []int{0, 3}}, {7, []int{5, 6}}} {
+		for a := 0; a < 3; a++ {
+			for c := 0; c < 2; c++ {
+				dir, _ := os.MkdirTemp("", "simsp")
+				ps := make([]int64, cfg.n)
+				bz := make([]bool, cfg.n)
+				for i := range ps {
+					ps[i] = 1
+				}
+				for _, b := range cfg.byz {
+					bz[b] = true
+				}
+				net := New(Config{Powers: ps, Byz: bz, Dir: dir})
+				d := NewDriver(net)
+				seen := map[int64][]byte{}
+				net.OnCommit = func(n *Node, cm Committed) {
+					if prev, ok := seen[cm.Height]; ok && !bytes.Equal(prev, cm.Hash) {
+						forks++
+					}
+					seen[cm.Height] = cm.Hash
+				}
+				total++
+				ok := d.Apply(Op{K: "stalepolka", A: a, B: 0, C: c})
+				if ok && d.Stats.StalePolkas > 0 {
+					done++
+				}
+				t.Logf("n=%d byz=%v a=%d c=%d: ok=%v completed=%d commits=%d", cfg.n, cfg.byz, a, c, ok, d.Stats.StalePolkas, len(seen))
+				net.Close()
+				os.RemoveAll(dir)
+			}
+		}
+	}
+	t.Logf("completed %d of %d, forks %d", done, total, forks)
+	if done*2 < total {
+		t.Fatalf("script completes too rarely: %d of %d", done, total)
+	}
+	if os.Getenv("SIM_EXPECT_FORK") != "" {
+		if forks == 0 {
+			t.Fatalf("expected a fork on the mutated tree")
+		}
+	} else if forks > 0 {
+		t.Fatalf("%d forks", forks)
+	}
+}
+
+// The late-proposal script must complete for most placements; afterwards fair delivery must let
+// every honest node commit the height (on a correct tree).
+func TestLateProposalScript(t *testing.T) {
+	done, total, wedged := 0, 0, 0
+	for _, cfg := range []struct {
+		n   int
+		byz []int
+	}{{4, []int{0}}, {4, []int{2}}, {5, []int{1}}, {7, []int{0, 3}}, {7, []int{6}}} {
+		for a := 0; a < 4; a++ {
+			dir, _ := os.MkdirTemp("", "simlp")
+			ps := make([]int64, cfg.n)
+			bz := make([]bool, cfg.n)
+			for i := range ps {
+				ps[i] = 1
+			}
+			for _, b := range cfg.byz {
+				bz[b] = true
+			}
+			net := New(Config{Powers: ps, Byz: bz, Dir: dir})
+			d := NewDriver(net)
+			total++
+			ok := d.Apply(Op{K: "lateproposal", N: a, A: a})
+			if ok && d.Stats.LateProposals > 0 {
+				done++
+				var target int64
+				for _, n := range net.Honest() {
+					if hh := n.RS().Height; hh > target {
+						target = hh
+					}
+				}
+				if !d.RunFair(target, 6000) {
+					wedged++
+					t.Logf("n=%d byz=%v a=%d: WEDGED", cfg.n, cfg.byz, a)
+				}
+			}
+			t.Logf("n=%d byz=%v a=%d: ok=%v completed=%d", cfg.n, cfg.byz, a, ok, d.Stats.LateProposals)
+			net.Close()
+			os.RemoveAll(dir)
+		}
+	}
+	t.Logf("completed %d of %d, wedged %d", done, total, wedged)
+	if done*2 < total {
+		t.Fatalf("script completes too rarely: %d of %d", done, total)
+	}
+	if os.Getenv("SIM_EXPECT_WEDGE") != "" {
+		if wedged == 0 {
+			t.Fatalf("expected a wedged node on the mutated tree")
+		}
+	} else if wedged > 0 {
+		t.Fatalf("%d wedged", wedged)
+	}
+}
